@@ -289,7 +289,10 @@ def onEv (st : FSt) : Ev → FSt
   | .mref exprText methodName pos =>
     let tt := parseTargetType st exprText
     let full := (warp st tt).1
-    addCall st { pkg := removeTarget full, type := "lambda", node := tt, fn := methodName, pos := buildPosition pos exprText }
+    -- `pos` = the token of the method's name
+    addCall st { pkg := removeTarget full, type := "lambda", node := tt, fn := methodName,
+                 pos := { startLine := pos.startLine, startCol := pos.startCol, stopLine := pos.startLine,
+                          stopCol := pos.startCol + methodName.utf8ByteSize } }
   | .enterBlock => if Gen.JavaFull.blockSavesLocals then saveLocalVars st else st
   | .exitBlock => if Gen.JavaFull.blockRestoresLocals then restoreLocalVars st else st
   | .enterStmtScope => if Gen.JavaFull.forSavesLocals then saveLocalVars st else st
